@@ -71,7 +71,7 @@ func (q *queryExecutor) speculate(ctx context.Context, qry ExecutableQuery, sp S
 		select {
 		case <-ticker.C:
 			qry.borrowForExecution() // ensure liveness in case of executing Query to prevent races with Query.Release().
-			go q.run(ctx, qry, hostIter, results)
+			go q.run(ctx, qry, hostIter, results, true)
 		case <-ctx.Done():
 			return &Iter{err: ctx.Err()}
 		case iter := <-results:
@@ -109,7 +109,7 @@ func (q *queryExecutor) executeQuery(qry ExecutableQuery) (*Iter, error) {
 
 	// Launch the main execution
 	qry.borrowForExecution() // ensure liveness in case of executing Query to prevent races with Query.Release().
-	go q.run(ctx, qry, hostIter, results)
+	go q.run(ctx, qry, hostIter, results, false)
 
 	// The speculative executions are launched _in addition_ to the main
 	// execution, on a timer. So Speculation{2} would make 3 executions running
@@ -196,9 +196,16 @@ func (q *queryExecutor) do(ctx context.Context, qry ExecutableQuery, hostIter Ne
 	return &Iter{err: ErrNoConnections}
 }
 
-func (q *queryExecutor) run(ctx context.Context, qry ExecutableQuery, hostIter NextHost, results chan<- *Iter) {
+func (q *queryExecutor) run(ctx context.Context, qry ExecutableQuery, hostIter NextHost, results chan<- *Iter, speculative bool) {
+	iter := q.do(ctx, qry, hostIter)
+	if speculative && iter.err == ErrNoConnections {
+		// the executions share the host iterator: there was no host left for this
+		// additional execution to try, which is not a result of the query
+		qry.releaseAfterExecution()
+		return
+	}
 	select {
-	case results <- q.do(ctx, qry, hostIter):
+	case results <- iter:
 	case <-ctx.Done():
 	}
 	qry.releaseAfterExecution()
